@@ -9,6 +9,7 @@ def main(tier):
     rep.analysed["tree_hash"] = P.tree_hash
     dep.culling(P, rep)
     rep.attempt(dep.bbox_longitude_buffer, P, rep)
+    rep.attempt(dep.bbox_extremes, P, rep)         # the box spans the extreme trench coordinates
     segments.line_siblings(P, rep)     # slab and fault are copies of one another: shortcuts, input checks and guards must agree
     dep.accumulators(P, rep)
     dep.surface_pairing(P, rep)
